@@ -1,8 +1,14 @@
 import warnings; warnings.simplefilter('ignore')
 import cirq, numpy as np
-q=cirq.LineQubit.range(3)
-nm=cirq.NoiseModel.from_noise_model_like(cirq.phase_damp(0.2))
-c=cirq.Circuit(cirq.X(q[1])**0.5, cirq.X(q[2])**0.5, cirq.measure(q[0],q[2],key='k'))
-d=cirq.dephase_measurements(c)
-print(d); print(cirq.Circuit(nm.noisy_moments(d, sorted(d.all_qubits()))))
-print(cirq.DensityMatrixSimulator(noise=nm)._can_be_in_run_prefix(d[1].operations[0]), [type(o.gate).__name__ for o in d.all_operations()])
+from contracts.C11_roundtrips import _eq
+for st in ([1,1,2j,1],[1,2,3,4],[0.6,0.8],[1,1],[1,1j,1]):
+    try:
+        g=cirq.StatePreparationChannel(np.array(st,dtype=complex))
+    except Exception as e:
+        print(st,'ctor',e); continue
+    b=cirq.read_json(json_text=cirq.to_json(g)); print(st, g==b, np.max(np.abs(g._state-b._state)))
+vals=[np.array([[1, 2], [3, 4]]), cirq.MatrixGate(np.array([[0, 1j], [-1j, 0]])), cirq.KrausChannel([np.eye(2) * np.sqrt(0.5), np.array([[0, 1], [1, 0]]) * np.sqrt(0.5)], key="k"),
+ cirq.ResultDict(params=cirq.ParamResolver({"a": 0.5}), measurements={"m": np.array([[0, 1], [1, 1]], dtype=np.uint8)}),
+ cirq.ResultDict(params=cirq.ParamResolver({}), records={"m": np.array([[[0], [1]], [[1], [1]]], dtype=np.uint8)})]
+for v in vals:
+    b=cirq.read_json(json_text=cirq.to_json(v)); print(type(v).__name__, _eq(b,v), type(b).__name__)
